@@ -30,8 +30,9 @@ type mbScenario struct {
 
 type mbStep struct {
 	T  string `json:"t"`
-	Pc string `json:"pc"`
+	Pc string `json:"pc"` // a hook name; "*" = any point, N times; "**" = until the thread has finished
 	S  []int  `json:"s"`
+	N  int    `json:"n,omitempty"`
 }
 
 type mbRun struct {
@@ -213,6 +214,28 @@ func runMailboxScenario(sc *mbScenario, schedule []mbStep, seed int64) *mbRun {
 	// 1. follow the TLC behaviour
 	drifted := false
 	for _, st := range schedule {
+		if st.Pc == "*" || st.Pc == "**" {
+			// directed phase: run one thread for N steps / to its end ("c?" = whichever consumer is parked)
+			for k := 0; st.Pc == "**" && k < 100000 || k < st.N; k++ {
+				w := c.Find(st.T)
+				if st.T == "c?" {
+					w = nil
+					for _, cand := range c.Waiters() {
+						if isConsumer(cand.Role) {
+							w = cand
+						}
+					}
+				}
+				if w == nil {
+					break
+				}
+				if !stepped(w) {
+					c.Abandon()
+					return run
+				}
+			}
+			continue
+		}
 		w := c.Find(st.T)
 		if w == nil || w.Point != mbPoint(st.Pc) {
 			run.Drift++
